@@ -70,8 +70,21 @@ pub mod fa {
             o.write(&mut ow).unwrap();
             let mut oww = vec![];
             o.write_wrap(&mut oww, 3).unwrap();
+            let nl = r.num_seq_lines();
+            let opt = |o: Option<&[u8]>| format!("{{\"some\":{},\"item\":{}}}", o.is_some(), jb(o.unwrap_or(b"")));
+            let nth: Vec<String> = (0..nl).map(|k| opt(r.seq_lines().nth(k))).collect();
+            let nth_back: Vec<String> = (0..nl).map(|k| opt(r.seq_lines().nth_back(k))).collect();
+            let mut it = r.seq_lines();
+            let past_none = it.nth(nl).is_none();
+            let past_len = it.len();
+            let past_next_none = it.next().is_none() && it.next_back().is_none();
             s.push_str(&format!(
-                ",\"v\":{{\"seq_raw\":{},\"lines_rev\":{},\"nlines\":{},\"len\":{},\"hint\":[{},{}],\"full\":{},\"borrowed\":{},\"owned_seq\":{},\"ohead\":{},\"oseq\":{},\"ohead2\":{},\"oseq2\":{},\"id\":{},\"desc\":{},\"id2\":{},\"desc2\":{},\"oid\":{},\"odesc\":{},\"id_str\":{},\"desc_str\":{},\"id_desc_str\":{},\"w\":{},\"wu\":{},\"ww\":{},\"ow\":{},\"oww\":{}}}",
+                ",\"v\":{{\"lines_nth\":[{}],\"lines_nth_back\":[{}],\"nth_past\":{{\"none\":{},\"len\":{},\"next_none\":{}}},\"seq_raw\":{},\"lines_rev\":{},\"nlines\":{},\"len\":{},\"hint\":[{},{}],\"full\":{},\"borrowed\":{},\"owned_seq\":{},\"ohead\":{},\"oseq\":{},\"ohead2\":{},\"oseq2\":{},\"id\":{},\"desc\":{},\"id2\":{},\"desc2\":{},\"oid\":{},\"odesc\":{},\"id_str\":{},\"desc_str\":{},\"id_desc_str\":{},\"w\":{},\"wu\":{},\"ww\":{},\"ow\":{},\"oww\":{}}}",
+                nth.join(","),
+                nth_back.join(","),
+                past_none,
+                past_len,
+                past_next_none,
                 jb(r.seq()),
                 jlines(r.seq_lines().rev()),
                 r.num_seq_lines(),
